@@ -1,10 +1,20 @@
 (* C10 - Object checkout converges, is idempotent, honours link types, spares the cache.
    Only statements; model in Model/ObjCheckout.v, proofs in Proofs/ObjCheckoutProofs2.v.
 
-   Deviation from DESIGN (time): C10_converges, C10_idempotent and C10_link_record are NOT proved
-   here; they are established by the oracle and the correspondence only (walk = target, second
-   call returns None and changes nothing, saved record = recomputed (inode, token)).  What is
-   proved, unbounded:
+   Deviation from DESIGN (time): C10_converges (restricted to readable priors, i.e. [stageable w]),
+   C10_idempotent and C10_link_record are NOT proved here; they are established by the oracle and
+   the correspondence only (walk = target, second call returns None and changes nothing, saved
+   record = recomputed (inode, token)).  The intended statement is
+
+     C10_converges : g_force g = true -> stageable w = true -> g_links g <> [] ->
+        (forall k o, kassoc k tgt = Some o -> o <> [] /\ exists co, oassoc o c = Some co) ->
+        NoDup order -> (forall k, is_some (kassoc k w) || is_some (kassoc k tgt) = true -> In k order) ->
+        intact c -> injective H ->
+        forall k, option_map f_bytes (kassoc k (r_ws (checkout H g c w tgt order))) = expected c tgt k
+
+   Without [stageable w] it is refuted by the faithful model (C10_converges_refuted, the recorded
+   finding C10:does-not-converge:old-tree-build-failed): a dangling link makes the dry re-staging
+   fail, checkout goes on without an old tree and never deletes anything.  What is proved, unbounded:
    - C10_cache_untouched: no step of the model writes the cache (that the implementation has no
      such step is what the correspondence's byte snapshot measures);
    - C10_relink_partial: the decision the relinking checkout rests on - the *generated*
@@ -14,7 +24,7 @@
      (relink -> forall file, kind ws' file = configured type) additionally needs the per-path
      frame argument over run_files. *)
 From Coq Require Import NArith List Bool.
-From DvcData Require Import Base.Val Base.PyBase Gen.PyTypes Gen.Relink Model.ObjCheckout Proofs.ObjCheckoutProofs2.
+From DvcData Require Import Base.Val Base.PyBase Gen.PyTypes Gen.Relink Model.ObjCheckout Proofs.ObjCheckoutProofs Proofs.ObjCheckoutProofs2.
 Import ListNotations.
 Open Scope N_scope.
 
@@ -30,3 +40,51 @@ Proof.
   - now apply needs_relink_complete.
 Qed.
 Print Assumptions C10_relink_partial.
+
+(* the target's files and bytes, as a function of the path *)
+Definition expected (c : cache) (tgt : list (key * oid)) (k : key) : option bytes :=
+  match kassoc k tgt with Some o => option_map c_bytes (oassoc o c) | None => None end.
+
+(* full statement (no restriction on the prior workspace): refuted.  Forced checkout, cached target,
+   every key in the order, usable link type - and a file outside the target survives because the
+   workspace holds a dangling symbolic link. *)
+Theorem C10_converges_refuted :
+  exists (H : bytes -> oid) g c w tgt order,
+    g_force g = true /\ g_links g <> [] /\
+    (forall k o, kassoc k tgt = Some o -> exists co, oassoc o c = Some co) /\
+    (forall k, (is_some (kassoc k w) || is_some (kassoc k tgt))%bool = true -> In k order) /\
+    ~ (forall k, option_map f_bytes (kassoc k (r_ws (checkout H g c w tgt order))) = expected c tgt k).
+Proof.
+  exists (fun b => 1 :: b), (mk_cfg true false None [hardlink_name] [LHard] false 9),
+         [([1; 65], mk_cobj [65] 1 1 1)],
+         [([[97]], mk_fnode [67] false None false 0 1 2); ([[98]], dangling_node [1; 66])],
+         [([[122]], [1; 65])], [[[122]]; [[97]]; [[98]]].
+  split; [reflexivity|]. split; [discriminate|]. split.
+  - intros k o. simpl. destruct (key_eqb k [[122]]); [|discriminate].
+    intros E. injection E as <-. eexists. reflexivity.
+  - split.
+    + intros k. simpl.
+      destruct (key_eqb k [[97]]) eqn:E1; [apply ObjCheckoutProofs.key_eqb_spec in E1; subst; simpl; auto|].
+      destruct (key_eqb k [[98]]) eqn:E2; [apply ObjCheckoutProofs.key_eqb_spec in E2; subst; simpl; auto|].
+      destruct (key_eqb k [[122]]) eqn:E3; [apply ObjCheckoutProofs.key_eqb_spec in E3; subst; simpl; auto|].
+      discriminate.
+    + intros Hall. specialize (Hall [[97]]). vm_compute in Hall. discriminate.
+Qed.
+Print Assumptions C10_converges_refuted.
+
+(* the same input with a readable prior (no dangling link) converges, the second call has nothing
+   to do and leaves the workspace alone *)
+Theorem C10_converges_instance :
+  let H := fun b : bytes => 1 :: b in
+  let g := mk_cfg true false None [hardlink_name] [LHard] true 9 in
+  let c := [([1; 65], mk_cobj [65] 1 1 1)] in
+  let tgt := [([[122]], [1; 65])] in
+  let order := [[[122]]; [[97]]] in
+  let r := checkout H g c [([[97]], mk_fnode [67] false None false 0 1 2)] tgt order in
+  r_out r = ODone true /\
+  map (fun kn => (fst kn, f_bytes (snd kn))) (r_ws r) = [([[122]], [65])] /\
+  r_links r = Some [([[122]], 1)] /\
+  let r2 := checkout H g c (r_ws r) tgt order in
+  r_out r2 = ONothing /\ r_ws r2 = r_ws r.
+Proof. vm_compute. repeat split; reflexivity. Qed.
+Print Assumptions C10_converges_instance.
